@@ -71,6 +71,13 @@ pub fn check_at(h: &History, k: usize) -> Result<Option<bool>, Failure> {
             }
             break;
         }
+        // the two devices hold different (non-persisted) MAC configurations, so a receive window may
+        // have a different size limit: when the reference verdicts for the two runs differ the step is
+        // outside what the statement fixes and the comparison stops here
+        let kind = |r: &StepRec| -> Vec<u8> { r.deliveries.iter().map(|d| match d.verdict { Verdict::Accept { .. } => 0, Verdict::Reject(_) => 1, Verdict::Oversize => 2, Verdict::SizeDontCare => 3, Verdict::JoinAccept { .. } => 4 }).collect() };
+        if kind(ra) != kind(rb) || kind(ra).contains(&3) {
+            break;
+        }
         let fa = ra.txs.first().map(|t| t.bytes.clone());
         let fb = rb.txs.first().map(|t| t.bytes.clone());
         if fa != fb {
@@ -87,8 +94,15 @@ pub fn check_at(h: &History, k: usize) -> Result<Option<bool>, Failure> {
         if da != db || ra.outcome != rb.outcome {
             return Err(Failure::new("restored-behaves", case(), format!("after uplink {j}: original {} fcnt_down {:?}; restored {} fcnt_down {:?} (reference verdicts {:?})", ra.outcome.text(), da, rb.outcome.text(), db, va)).with_fp("acceptance-differs"));
         }
+        // a replayed frame that is accepted now may carry MAC commands; their answers depend on the
+        // (non-persisted) channel plan, so the pending answers of the two devices may differ from here on
+        if ra.deliveries.iter().any(|d| matches!(&d.verdict, Verdict::Accept { fopts, fport, plain, .. } if !fopts.is_empty() || (*fport == Some(0) && !plain.is_empty()))) {
+            break;
+        }
         if ra.session_after != rb.session_after {
-            return Err(Failure::new("restored-behaves", case(), format!("session after uplink {j} differs: {:?} vs {:?}", ra.session_after, rb.session_after)).with_fp("session-diverges"));
+            let (x, y) = (ra.session_after.clone().unwrap_or(Value::Null), rb.session_after.clone().unwrap_or(Value::Null));
+            let diff: Vec<String> = x.as_object().map(|o| o.keys().filter(|k| x[k.as_str()] != y[k.as_str()]).map(|k| format!("{k}: {} vs {}", x[k.as_str()], y[k.as_str()])).collect()).unwrap_or_default();
+            return Err(Failure::new("restored-behaves", case(), format!("session after uplink {j} differs: {}", diff.join("; "))).with_fp("session-diverges"));
         }
     }
     Ok(Some(nontrivial))
@@ -247,7 +261,7 @@ pub fn run(ctx: &mut Ctx) {
         "the restored twin gets the same set_datarate/set_adr calls as the original".into(),
     ];
     let seed = ctx.seed;
-    let cases = ctx.tier.pick(500u32, 50_000);
+    let cases = ctx.tier.pick(5_000u32, 150_000);
     let nthreads = ctx.threads as u32;
     ctx.parallel(|ti, _n, st| {
         let f = run_proptest(history_strategy(), cases / nthreads + 1, seed ^ 0xC20 ^ ((ti as u64) << 36), st, |h, st| {
